@@ -74,6 +74,29 @@ var targets = []target{
 	{"", "CheckBitRangeBigEndian"},
 	{"", "CheckValue"},
 	{"", "Frame.Validate"},
+	{"pkg/descriptor", "Signal.UnmarshalUnsigned"},
+	{"pkg/descriptor", "Signal.UnmarshalSigned"},
+	{"pkg/descriptor", "Signal.UnmarshalBool"},
+	{"pkg/descriptor", "Signal.MarshalUnsigned"},
+	{"pkg/descriptor", "Signal.MarshalSigned"},
+	{"pkg/descriptor", "Signal.MarshalBool"},
+	{"pkg/descriptor", "Signal.MaxUnsigned"},
+	{"pkg/descriptor", "Signal.MinSigned"},
+	{"pkg/descriptor", "Signal.MaxSigned"},
+	{"pkg/descriptor", "Signal.SaturatedCastSigned"},
+	{"pkg/descriptor", "Signal.SaturatedCastUnsigned"},
+	{"pkg/socketcan", "frame.isExtended"},
+	{"pkg/socketcan", "frame.isRemote"},
+	{"pkg/socketcan", "frame.isError"},
+	{"pkg/socketcan", "frame.id"},
+	{"pkg/socketcan", "frame.errorClass"},
+	{"pkg/socketcan", "frame.lostArbitrationBit"},
+	{"pkg/socketcan", "frame.controllerError"},
+	{"pkg/socketcan", "frame.protocolError"},
+	{"pkg/socketcan", "frame.protocolErrorLocation"},
+	{"pkg/socketcan", "frame.transceiverError"},
+	{"pkg/socketcan", "frame.encodeFrame"},
+	{"pkg/socketcan", "frame.decodeFrame"},
 }
 
 const modPath = "go.einride.tech/can"
@@ -83,11 +106,13 @@ var fullNames = map[target]string{}
 var done = map[string]*fnOut{} // translated functions, by types.Func.FullName
 
 type fnOut struct {
-	lean    string   // Lean base name
-	params  []string // Lean parameter names, in order (receiver first)
-	hasRet  bool
-	hasRecv bool
-	nret    int
+	lean     string   // Lean base name
+	params   []string // Lean parameter names, in order (receiver first)
+	hasRet   bool
+	hasRecv  bool
+	nret     int
+	outArg   int        // index of the Go-level argument (receiver = 0 for methods) the function mutates; -1 none
+	goStruct [][]string // per Go-level argument: nil, or the field names a struct argument expands to
 }
 
 func load(repo, rel string) *pkgInfo {
@@ -146,6 +171,8 @@ type lty struct {
 	w      int
 	signed bool
 	st     *types.Struct
+	name   string // Lean structure name (struct kinds)
+	goT    types.Type
 }
 
 func (t lty) lean() string {
@@ -156,6 +183,10 @@ func (t lty) lean() string {
 		return "Bool"
 	case "arr":
 		return "BitVec 64"
+	case "struct":
+		if t.name != "" {
+			return t.name
+		}
 	}
 	refuse("no Lean type for %v", t.kind)
 	return ""
@@ -195,7 +226,7 @@ func ltype(T types.Type) lty {
 			return lty{kind: "arr"}
 		}
 	case *types.Struct:
-		return lty{kind: "struct", st: u}
+		return lty{kind: "struct", st: u, goT: T}
 	case *types.Interface:
 		if T.String() == "error" {
 			return lty{kind: "err"}
@@ -203,6 +234,63 @@ func ltype(T types.Type) lty {
 	}
 	refuse("unsupported type %s", T.String())
 	return lty{}
+}
+
+// supported reports whether a type has a Lean rendering (used to skip struct fields such as strings, floats, slices)
+func supported(T types.Type) (ok bool) {
+	defer func() {
+		if r := recover(); r != nil {
+			if _, isRef := r.(refusal); isRef {
+				ok = false
+				return
+			}
+			panic(r)
+		}
+	}()
+	k := ltype(T).kind
+	return k == "bv" || k == "bool" || k == "arr"
+}
+
+func structFields(st *types.Struct) []*types.Var {
+	var fs []*types.Var
+	for i := 0; i < st.NumFields(); i++ {
+		if supported(st.Field(i).Type()) {
+			fs = append(fs, st.Field(i))
+		}
+	}
+	return fs
+}
+
+var structDecls []string
+var structNames = map[string]string{}
+
+// declareStruct writes a Lean structure for a Go struct type (fields with a Lean rendering only) once and returns its name
+func declareStruct(T types.Type) string {
+	if p, ok := T.(*types.Pointer); ok {
+		T = p.Elem()
+	}
+	nt, ok := T.(*types.Named)
+	if !ok {
+		refuse("anonymous struct type")
+	}
+	key := nt.Obj().Pkg().Path() + "." + nt.Obj().Name()
+	if n, ok := structNames[key]; ok {
+		return n
+	}
+	name := nt.Obj().Name()
+	for _, other := range structNames {
+		if other == name {
+			refuse("two struct types named %s", name)
+		}
+	}
+	structNames[key] = name
+	var sb strings.Builder
+	fmt.Fprintf(&sb, "/-- struct `%s`: the fields that have a bit-vector / Bool rendering -/\nstructure %s where\n", key, name)
+	for _, f := range structFields(nt.Underlying().(*types.Struct)) {
+		fmt.Fprintf(&sb, "  %s : %s\n", f.Name(), ltype(f.Type()).lean())
+	}
+	structDecls = append(structDecls, sb.String())
+	return name
 }
 
 func lit(v *big.Int, w int) string {
@@ -214,18 +302,19 @@ func lit(v *big.Int, w int) string {
 // ---- function translation ----
 
 type ctx struct {
-	p           *pkgInfo
-	repo        string
-	fd          *ast.FuncDecl
-	recvObj     types.Object
-	ret         lty
-	hasRet      bool
-	fresh       int
-	fields      map[string]lty // struct-parameter fields used: lean name -> type
-	fieldOrder  []string
-	assignsRecv bool
-	retSel      string // "_ret" or "_retK" for the K-th result of a multi-result callee
-	rets        []lty
+	p          *pkgInfo
+	repo       string
+	fd         *ast.FuncDecl
+	recvObj    types.Object         // the pointer parameter the function mutates (known in the recv pass)
+	cands      map[types.Object]int // pointer parameters that may be mutated -> Go-level argument index
+	mutated    map[types.Object]bool
+	ret        lty
+	hasRet     bool
+	fresh      int
+	fields     map[string]lty // struct-parameter fields used: lean name -> type
+	fieldOrder []string
+	retSel     string // "_ret" or "_retK" for the K-th result of a multi-result callee
+	rets       []lty
 }
 
 type env struct {
@@ -324,6 +413,11 @@ func (c *ctx) expr(e ast.Expr, en *env) string {
 			return a
 		case token.NOT:
 			return "(! " + a + ")"
+		case token.AND:
+			// the address of an array or struct variable: pointers are rendered as the value they point to
+			if k := ltype(c.typeOf(x.X)).kind; k == "arr" || k == "struct" {
+				return a
+			}
 		}
 		refuse("unary %s", x.Op)
 	case *ast.BinaryExpr:
@@ -337,21 +431,53 @@ func (c *ctx) expr(e ast.Expr, en *env) string {
 		}
 		a := c.expr(x.X, en)
 		return "(getByte " + a + " " + c.index(x.Index, en) + ")"
+	case *ast.CompositeLit:
+		t := ltype(c.typeOf(x))
+		if t.kind != "struct" {
+			refuse("composite literal of %s", c.typeOf(x))
+		}
+		name := declareStruct(c.typeOf(x))
+		given := map[string]string{}
+		for _, el := range x.Elts {
+			kv, ok := el.(*ast.KeyValueExpr)
+			if !ok {
+				refuse("positional composite literal")
+			}
+			given[kv.Key.(*ast.Ident).Name] = c.expr(kv.Value, en)
+		}
+		var parts []string
+		for _, f := range structFields(t.st) {
+			v, ok := given[f.Name()]
+			if !ok {
+				switch ft := ltype(f.Type()); ft.kind {
+				case "bv":
+					v = fmt.Sprintf("0#%d", ft.w)
+				case "arr":
+					v = "0#64"
+				default:
+					v = "false"
+				}
+			}
+			delete(given, f.Name())
+			parts = append(parts, f.Name()+" := "+v)
+		}
+		if len(given) > 0 {
+			refuse("composite literal sets a field without a Lean rendering")
+		}
+		return "({ " + strings.Join(parts, ", ") + " } : " + name + ")"
 	case *ast.SelectorExpr:
 		// field of a struct parameter
 		if sel, ok := c.p.info.Selections[x]; ok && sel.Kind() == types.FieldVal {
 			if id, ok := x.X.(*ast.Ident); ok {
 				o := c.p.info.Uses[id]
 				if base, ok := en.vars[o]; ok && strings.HasPrefix(base, "¶") {
-					n := base[len("¶"):] + "_" + x.Sel.Name
+					if !supported(sel.Type()) {
+						refuse("field %s of type %s", x.Sel.Name, sel.Type())
+					}
 					if cur, ok := en.vars[fieldKey(o, x.Sel.Name)]; ok {
 						return cur
 					}
-					if _, ok := c.fields[n]; !ok {
-						c.fields[n] = ltype(sel.Type())
-						c.fieldOrder = append(c.fieldOrder, n)
-					}
-					return n
+					return "(" + base[len("¶"):] + "." + x.Sel.Name + ")"
 				}
 			}
 		}
@@ -552,9 +678,7 @@ func (c *ctx) call(x *ast.CallExpr, en *env, wantValue bool) string {
 						if ro == nil {
 							refuse("PutUint64 target")
 						}
-						if ro == c.recvObj {
-							c.assignsRecv = true
-						}
+						c.markMut(ro)
 						n := c.name("d")
 						en.vars[ro] = n
 						return "§let " + n + " : BitVec 64 := " + v + "§"
@@ -608,35 +732,53 @@ func (c *ctx) call(x *ast.CallExpr, en *env, wantValue bool) string {
 		refuse("call of %v (outside the module or not translatable) at %s", obj, c.p.fset.Position(x.Pos()))
 	}
 	var args []string
+	var goArgs []ast.Expr
 	if recv != nil {
-		args = append(args, c.expr(recv, en))
+		goArgs = append(goArgs, recv)
 	}
-	for _, a := range x.Args {
+	goArgs = append(goArgs, x.Args...)
+	if len(goArgs) != len(out.goStruct) {
+		refuse("call of %s: %d arguments for %d parameters", out.lean, len(goArgs), len(out.goStruct))
+	}
+	for i, a := range goArgs {
+		if out.goStruct[i] != nil {
+			// a struct argument: must be a struct parameter of the caller, passed on field by field
+			ro := c.rootObj(a)
+			base, ok := en.vars[ro]
+			if ro == nil || !ok || !strings.HasPrefix(base, "¶") {
+				refuse("struct argument of %s is not a parameter", out.lean)
+			}
+			args = append(args, c.structValue(ro, en))
+			continue
+		}
 		args = append(args, c.expr(a, en))
-	}
-	if len(args) != len(out.params) {
-		refuse("call of %s: %d arguments for %d parameters (struct parameters are not passed on)", out.lean, len(args), len(out.params))
 	}
 	al := strings.Join(args, " ")
 	en.oks = append(en.oks, "("+out.lean+"_ok "+al+")")
-	if recv != nil && out.hasRecv {
-		// receiver is updated by the callee
-		ro := c.rootObj(recv)
+	if out.hasRecv && out.outArg >= 0 {
+		// the callee updates the array its argument points to
+		ro := c.rootObj(goArgs[out.outArg])
 		if ro == nil {
-			refuse("receiver of mutating call is not a variable")
+			refuse("target of a mutating call is not a variable")
 		}
 		n := c.name("d")
 		pre := "§let " + n + " := (" + out.lean + "_recv " + al + ")§"
-		if ro == c.recvObj {
-			c.assignsRecv = true
+		c.markMut(ro)
+		newVal := n
+		if t := ltype(ro.Type()); t.kind == "struct" {
+			// the struct as a whole is replaced: field values tracked so far are superseded
+			newVal = "¶" + n
+			for _, f := range structFields(t.st) {
+				delete(en.vars, fieldKey(ro, f.Name()))
+			}
 		}
 		if wantValue && out.hasRet {
 			r := c.name("r")
 			pre = "§let " + r + " := (" + out.lean + "_ret " + al + ")§" + pre
-			en.vars[ro] = n
+			en.vars[ro] = newVal
 			return pre + r
 		}
-		en.vars[ro] = n
+		en.vars[ro] = newVal
 		return pre
 	}
 	if out.nret == 0 {
@@ -652,6 +794,39 @@ func (c *ctx) call(x *ast.CallExpr, en *env, wantValue bool) string {
 		return "(" + out.lean + c.retSel + " " + al + ")"
 	}
 	return "(" + out.lean + "_ret " + al + ")"
+}
+
+func (c *ctx) markMut(o types.Object) {
+	if _, ok := c.cands[o]; ok {
+		c.mutated[o] = true
+	}
+}
+
+// recvValue is the Lean expression of the mutable parameter at the end of a path
+func (c *ctx) recvValue(en *env) string {
+	if c.recvObj == nil {
+		return "0#64"
+	}
+	return c.structValue(c.recvObj, en)
+}
+
+// structValue is the current value of a variable: for a struct parameter, the parameter with the fields assigned so far
+func (c *ctx) structValue(o types.Object, en *env) string {
+	base := en.vars[o]
+	if !strings.HasPrefix(base, "¶") {
+		return base
+	}
+	t := ltype(o.Type())
+	var ups []string
+	for _, f := range structFields(t.st) {
+		if cur, ok := en.vars[fieldKey(o, f.Name())]; ok {
+			ups = append(ups, f.Name()+" := "+cur)
+		}
+	}
+	if len(ups) == 0 {
+		return base[len("¶"):]
+	}
+	return "{ " + base[len("¶"):] + " with " + strings.Join(ups, ", ") + " }"
 }
 
 func (c *ctx) rootObj(e ast.Expr) types.Object {
@@ -896,7 +1071,7 @@ func (c *ctx) generalLoop(x *ast.ForStmt, cont func(*env, *out), k []func(*env, 
 				case "ok":
 					o.line("false")
 				case "recv":
-					o.line(en.vars[c.recvObj])
+					o.line(c.recvValue(en))
 				default:
 					switch c.ret.kind {
 					case "bv":
@@ -1161,23 +1336,36 @@ func (c *ctx) store(lhs ast.Expr, v string, en *env, o *out) {
 		c.bind(obj, l.Name, ltype(obj.Type()), v, en, o)
 	case *ast.StarExpr:
 		ro := c.rootObj(l.X)
-		if ro == nil || ro != c.recvObj {
+		if _, ok := c.cands[ro]; ro == nil || !ok {
 			refuse("assignment through a pointer")
 		}
-		c.assignsRecv = true
+		c.markMut(ro)
 		c.bind(ro, "d", ltype(ro.Type()), v, en, o)
 	case *ast.IndexExpr:
 		ro := c.rootObj(l.X)
 		if ro == nil || ltype(ro.Type()).kind != "arr" {
 			refuse("indexed assignment")
 		}
-		if ro == c.recvObj {
-			c.assignsRecv = true
-		}
+		c.markMut(ro)
 		ix := c.evs(c.index(l.Index, en), o)
 		c.bind(ro, "d", lty{kind: "arr"}, "(setByte "+en.vars[ro]+" "+ix+" "+v+")", en, o)
 	case *ast.SelectorExpr:
-		refuse("assignment to a field")
+		ro := c.rootObj(l.X)
+		base, ok := en.vars[ro]
+		if ro == nil || !ok || !strings.HasPrefix(base, "¶") {
+			refuse("assignment to a field of something other than a struct parameter")
+		}
+		if _, ok := c.cands[ro]; !ok {
+			refuse("assignment to a field of a struct that is not passed by pointer")
+		}
+		ft := ltype(c.typeOf(l))
+		if ft.kind != "bv" && ft.kind != "bool" && ft.kind != "arr" {
+			refuse("assignment to field %s", l.Sel.Name)
+		}
+		c.markMut(ro)
+		n := c.name(l.Sel.Name)
+		o.line("let " + n + " : " + ft.lean() + " := " + v)
+		en.vars[fieldKey(ro, l.Sel.Name)] = n
 	default:
 		refuse("assignment target %T", lhs)
 	}
@@ -1201,7 +1389,7 @@ func (c *ctx) leaf(rs []ast.Expr, en *env, o *out, mode string) {
 	}
 	switch mode {
 	case "recv":
-		o.line(en.vars[c.recvObj])
+		o.line(c.recvValue(en))
 	case "ok":
 		if len(en.oks) == 0 {
 			o.line("true")
@@ -1256,7 +1444,11 @@ func translate(repo string, tg target) {
 	res := &fnOut{lean: lean, hasRet: sig.Results().Len() == 1, nret: sig.Results().Len()}
 	var rets []lty
 	for i := 0; i < sig.Results().Len(); i++ {
-		rets = append(rets, ltype(sig.Results().At(i).Type()))
+		rt := ltype(sig.Results().At(i).Type())
+		if rt.kind == "struct" {
+			rt.name = declareStruct(sig.Results().At(i).Type())
+		}
+		rets = append(rets, rt)
 	}
 	var sbAll strings.Builder
 	var paramDecl string
@@ -1269,12 +1461,24 @@ func translate(repo string, tg target) {
 		}
 	}
 	bodies := map[string]string{}
+	mutated := map[types.Object]bool{}
+	recvType := "BitVec 64"
 	var rett lty
 	if res.hasRet {
-		rett = ltype(sig.Results().At(0).Type())
+		rett = rets[0]
 	}
 	for _, mode := range modes {
-		c := &ctx{p: p, repo: repo, fd: fd, fields: map[string]lty{}, ret: rett, hasRet: res.hasRet, rets: rets}
+		c := &ctx{p: p, repo: repo, fd: fd, fields: map[string]lty{}, ret: rett, hasRet: res.hasRet, rets: rets,
+			cands: map[types.Object]int{}, mutated: mutated}
+		if mode == "recv" {
+			// the passes before this one have found which pointer parameter is assigned through
+			if len(mutated) > 1 {
+				refuse("%s mutates more than one pointer parameter", tg.name)
+			}
+			for o := range mutated {
+				c.recvObj = o
+			}
+		}
 		en := &env{vars: map[types.Object]string{}}
 		var params []string
 		var decl []string
@@ -1285,12 +1489,36 @@ func translate(repo string, tg target) {
 			if t.kind == "struct" {
 				en.vars[o] = "¶" + id.Name
 				structOf[len(params)] = t.st
-				params = append(params, "¶"+id.Name)
+				params = append(params, id.Name)
+				decl = append(decl, "("+id.Name+" : "+declareStruct(T)+")")
 				return
 			}
 			en.vars[o] = id.Name
 			params = append(params, id.Name)
 			decl = append(decl, "("+id.Name+" : "+t.lean()+")")
+		}
+		goIdx := 0
+		res.goStruct = nil
+		note := func(id *ast.Ident) {
+			T := p.info.Defs[id].Type()
+			t := ltype(T)
+			if _, isPtr := T.(*types.Pointer); isPtr && (t.kind == "arr" || t.kind == "struct") {
+				// a pointer to a byte array or struct: something the function may mutate
+				c.cands[p.info.Defs[id]] = goIdx
+			}
+			if t.kind == "struct" {
+				var fs []string
+				for _, f := range structFields(t.st) {
+					fs = append(fs, f.Name())
+				}
+				if fs == nil {
+					fs = []string{}
+				}
+				res.goStruct = append(res.goStruct, fs)
+			} else {
+				res.goStruct = append(res.goStruct, nil)
+			}
+			goIdx++
 		}
 		if fd.Recv != nil {
 			f := fd.Recv.List[0]
@@ -1298,40 +1526,33 @@ func translate(repo string, tg target) {
 				refuse("%s: unnamed receiver", tg.name)
 			}
 			add(f.Names[0], p.info.Defs[f.Names[0]].Type())
-			c.recvObj = p.info.Defs[f.Names[0]]
+			note(f.Names[0])
 		}
 		for _, f := range fd.Type.Params.List {
 			for _, id := range f.Names {
 				add(id, p.info.Defs[id].Type())
+				note(id)
 			}
 		}
 		o := &out{}
 		c.stmts(fd.Body.List, nil, en, o, mode)
 		bodies[mode] = o.sb.String()
 		if mode == "recv" {
-			res.hasRecv = c.assignsRecv
+			res.hasRecv = c.recvObj != nil
+			res.outArg = -1
+			if c.recvObj != nil {
+				res.outArg = c.cands[c.recvObj]
+			}
+			recvType = "BitVec 64"
+			if c.recvObj != nil {
+				if t := ltype(c.recvObj.Type()); t.kind == "struct" {
+					recvType = declareStruct(c.recvObj.Type())
+				}
+			}
 		}
 		if mode == modes[len(modes)-1] {
-			// a struct parameter becomes one parameter per field (declaration order), whether read or not,
-			// so that the signature does not depend on the body
-			var ps []string
-			var ds []string
-			di := 0
-			for pi, pn := range params {
-				if strings.HasPrefix(pn, "¶") {
-					st := structOf[pi]
-					for i := 0; i < st.NumFields(); i++ {
-						f := st.Field(i)
-						n := pn[len("¶"):] + "_" + f.Name()
-						ps = append(ps, n)
-						ds = append(ds, "("+n+" : "+ltype(f.Type()).lean()+")")
-					}
-					continue
-				}
-				ps = append(ps, pn)
-				ds = append(ds, decl[di])
-				di++
-			}
+			ps := params
+			ds := decl
 			res.params = ps
 			paramDecl = strings.Join(ds, " ")
 		}
@@ -1345,9 +1566,10 @@ func translate(repo string, tg target) {
 		}
 	}
 	if res.hasRecv {
-		fmt.Fprintf(&sbAll, "def %s_recv %s : BitVec 64 :=\n%s\n", lean, paramDecl, bodies["recv"])
+		fmt.Fprintf(&sbAll, "def %s_recv %s : %s :=\n%s\n", lean, paramDecl, recvType, bodies["recv"])
 	}
 	fmt.Fprintf(&sbAll, "def %s_ok %s : Bool :=\n%s\n", lean, paramDecl, bodies["ok"])
+	fmt.Fprintf(&sbAll, "/-- whether `%s` assigns through one of its pointer parameters -/\ndef %s_mutates : Bool := %v\n", tg.name, lean, res.hasRecv)
 	done[obj.(*types.Func).FullName()] = res
 	fullNames[tg] = obj.(*types.Func).FullName()
 	outputs = append(outputs, sbAll.String())
@@ -1413,6 +1635,10 @@ func main() {
 	}()
 	if code != 0 {
 		os.Exit(code)
+	}
+	for _, d := range structDecls {
+		sb.WriteString(d)
+		sb.WriteString("\n")
 	}
 	for _, o := range outputs {
 		sb.WriteString(o)
